@@ -260,7 +260,7 @@ fn adversarial(rng: &mut Rng) -> Case {
         5 => ("lark", format!("start: {}\n", (0..rng.range(50, 2000)).map(|i| format!("\"k{i}\"")).collect::<Vec<_>>().join(" | "))),
         6 => {
             // nesting of every bracket kind the Lark front end recurses on
-            let d = *rng.pick(&[5usize, 20, 40, 200, 2000, 6000]);
+            let d = *rng.pick(&[5usize, 20, 40, 200, 1000, 3000, 6000]);
             match rng.below(4) {
                 0 => ("lark", format!("{}start: \"a\"\n{}", "start: %lark {\n".repeat(d), "}\n".repeat(d))),
                 1 => ("lark", format!("start: {}\"a\"{}\n", "[".repeat(d), "]".repeat(d))),
@@ -367,7 +367,8 @@ pub fn run(rng: &mut Rng, out: &mut Out, tier: &str) {
     let n = if tier == "thorough" { 20000 } else { 2000 };
     let cases = gen_cases(rng, n);
     let exe = std::env::current_exe().unwrap();
-    let per_case = Duration::from_secs(if tier == "thorough" { 30 } else { 15 });
+    // generous: the limit has to hold on a loaded machine too; an unbounded loop still trips it
+    let per_case = Duration::from_secs(120);
     let mut start = 0usize;
     let mut nruns = 0;
     while start < cases.len() && nruns < 400 {
